@@ -1065,3 +1065,39 @@ func specVarArgsIn(o Object, rest []Object, stack []Object) bool {
 	a, ok := o.(Array)
 	return ok && specVarArgs(o, rest) && verifrt.Disjoint([]Object(a), stack)
 }
+
+// Exported views of the input well-formedness predicates, for the contract
+// files of other packages (module functions).
+
+// VerifObjOK: a non-nil, well-formed Object.
+func VerifObjOK(o Object) bool { return validObj(o) && specNoTypedNil(o) }
+
+// specNoTypedNil: the Object does not hold a nil pointer of one of the
+// module's pointer-typed object kinds.
+func specNoTypedNil(o Object) bool {
+	switch v := o.(type) {
+	case *Error:
+		return v != nil
+	case *RuntimeError:
+		return v != nil
+	case *Function:
+		return v != nil
+	case *BuiltinFunction:
+		return v != nil
+	case *CompiledFunction:
+		return v != nil
+	case *SyncMap:
+		return v != nil
+	case *ObjectPtr:
+		return v != nil
+	}
+	return true
+}
+
+// VerifObjsOK: no nil element.
+func VerifObjsOK(a []Object) bool {
+	return verifrt.Forall(func(i int) bool { return !(0 <= i && i < len(a)) || VerifObjOK(a[i]) })
+}
+
+// VerifCallOK: every argument of the call is a well-formed Object.
+func VerifCallOK(c Call) bool { return VerifObjsOK(c.args) && VerifObjsOK(c.vargs) }
